@@ -388,4 +388,56 @@ theorem wolfecubicJ_ray (sqrt : Rat → Rat) (junk : WBr Rat) (hj : WTNonneg jun
   · exact key _ _ _ hb
   · exact key _ _ _ (wolfeZoom_tnonneg sqrt o point dir value _ _ _ _ _ false hb)
 
+/-! ### strong Wolfe conditions when the bracketing phase accepts a trial point outright (`single`) -/
+
+/-- the trial `(t, f, g)` satisfies both strong Wolfe conditions relative to the start `(value, gtd)` -/
+def StrongWolfe (dir : Vec Rat) (value gtd t f : Rat) (g : Vec Rat) : Prop :=
+  f ≤ value + wolfeC1 * t * gtd ∧ Scalar.abs (Vec.dot g dir) ≤ (-wolfeC2) * gtd
+
+theorem wolfeBracket_single_wolfe (o : Objective Rat) (point dir : Vec Rat) (value gtd : Rat) (junk : WBr Rat) :
+    ∀ (k iter : Nat) (t tPrev fPrev : Rat) (gPrev : Vec Rat) (fNew : Rat) (gNew : Vec Rat) (gtdNew : Rat),
+      gtdNew = Vec.dot gNew dir →
+      (wolfeBracket o point dir value gtd junk k iter t tPrev fPrev gPrev fNew gNew gtdNew).single = true →
+      StrongWolfe dir value gtd
+        (wolfeBracket o point dir value gtd junk k iter t tPrev fPrev gPrev fNew gNew gtdNew).br.t0
+        (wolfeBracket o point dir value gtd junk k iter t tPrev fPrev gPrev fNew gNew gtdNew).br.f0
+        (wolfeBracket o point dir value gtd junk k iter t tPrev fPrev gPrev fNew gNew gtdNew).br.g0 := by
+  intro k
+  induction k with
+  | zero =>
+    intro iter t tPrev fPrev gPrev fNew gNew gtdNew _ hs
+    unfold wolfeBracket at hs; simp at hs
+  | succ k ih =>
+    intro iter t tPrev fPrev gPrev fNew gNew gtdNew hg hs
+    unfold wolfeBracket at hs ⊢
+    dsimp only at hs ⊢
+    split_ifs at hs ⊢ with h1 h2 h3
+    · simp only [Bool.or_eq_true, decide_eq_true_eq, not_or, not_lt] at h1
+      exact ⟨h1.1, by show Scalar.abs (Vec.dot gNew dir) ≤ _; rw [← hg]; exact h2⟩
+    · exact ih _ _ _ _ _ _ _ _ rfl hs
+
+/-- **wolfecubic_single_strong_wolfe.**  When the bracketing phase of `wolfecubic` accepts a trial step outright
+(`single`), the function either keeps the start (only possible when 25 expansions were used and the accepted value is
+not strictly smaller) or returns that trial point `point + t'·dir`, `t' ≥ 0`, which satisfies **both strong Wolfe
+conditions**: `f' ≤ value + c1·t'·gᵀd` and `|g'ᵀd| ≤ -c2·gᵀd` (`c1 = 1e-4`, `c2 = 0.9`). -/
+theorem wolfecubic_single_strong_wolfe (sqrt : Rat → Rat) (junk : WBr Rat) (o : Objective Rat) (point : Vec Rat) (value : Rat)
+    (dir gradient : Vec Rat) (t : Rat)
+    (hs : (wolfeBracket o point dir value (Vec.dot gradient dir) junk wolfeMaxIter 0 t Scalar.zero value gradient
+      (o.f (Vec.axpy point t dir)) (o.grad (Vec.axpy point t dir)) (Vec.dot (o.grad (Vec.axpy point t dir)) dir)).single = true) :
+    wolfecubicJ sqrt junk o point value dir gradient t = ⟨point, value, gradient⟩ ∨
+    ∃ t', (wolfecubicJ sqrt junk o point value dir gradient t).point = Vec.axpy point t' dir ∧
+      StrongWolfe dir value (Vec.dot gradient dir) t' (wolfecubicJ sqrt junk o point value dir gradient t).value
+        (wolfecubicJ sqrt junk o point value dir gradient t).gradient := by
+  have hw := wolfeBracket_single_wolfe o point dir value (Vec.dot gradient dir) junk wolfeMaxIter 0 t Scalar.zero value gradient
+    (o.f (Vec.axpy point t dir)) (o.grad (Vec.axpy point t dir)) (Vec.dot (o.grad (Vec.axpy point t dir)) dir) rfl hs
+  unfold wolfecubicJ
+  dsimp only
+  rw [if_pos hs]
+  unfold wolfeSelect
+  rw [hs]
+  split_ifs with hc h2
+  · exact Or.inr ⟨_, rfl, hw⟩
+  · simp at h2
+  · exact Or.inl rfl
+
 end SharkVerif.Opt
